@@ -38,7 +38,7 @@ ASSUMPTIONS = [
 ]
 SHRINK_FROZEN_KEYS = ()
 
-VALS = st.sampled_from([0, 0, 1, 1, 1.0, True, "1", 2, None, [1, 2], {"x": 1}])
+VALS = st.sampled_from([0, 0, 1, 1, 1.0, True, "1", 2, None, [1, 2], {"x": 1}, "\u00e9"])
 KEYS = st.sampled_from(["a", "a", "b", "b", "c", "n"])
 sps = st.dictionaries(KEYS, VALS, max_size=2)
 H = st.integers(0, 7)
